@@ -202,7 +202,8 @@ def _o_integrate(kind):
             slope = np.abs(np.diff(yt) / np.diff(xt)).max()
             band = _band(x2 - x1, float(np.abs(yt).max()), float(slope))
         got = LD(call.result)
-        if abs(got - exp) <= 1e-12 * abs(exp) + band:
+        # 1e-300: below the normal range of doubles a relative precision cannot be asked for (intervals 1e-300 wide)
+        if abs(got - exp) <= 1e-12 * abs(exp) + band + LD(1e-300):
             pos = (COL.case or {}).get("_pos", 0)
             COL.ok("C17.qgauss", ("qgauss", kind, n, min(pos, 5), (COL.case or {}).get("_prev_n")))
         else:
